@@ -64,3 +64,17 @@ Theorem C10_frames_main : forall s es rel,
 Proof. exact ok_C10_frames_model. Qed.
 Theorem C10_oracle_implies_frames : forall c, ok_C10 c = true -> ok_C10_frames c = true.
 Proof. exact ok_C10_implies_frames. Qed.
+
+(** C10_seq_main: for every valid set-up and EVERY valid event list - of any
+    length, so across any number of wrap-arounds - the sequence ids of the Sync,
+    Delay_Req, Pdelay_Req and Announce messages each port emits increase by one
+    modulo 2^16 from one emission to the next: the sequence conjunct of the
+    oracle ok_C10 ([ok_C10_seq], the very [seq_check] that judges implementation
+    traces, which ok_C10 implies) holds on the model's own trace. *)
+From SV Require Import Port.SeqMain.
+Theorem C10_seq_main : forall s es rel,
+  setup_valid s -> Forall event_valid es ->
+  exists i o, init s = Ok (i, o) /\ ok_C10_seq (mkCase s es rel (Some o) (run i es)) = true.
+Proof. exact ok_C10_seq_model. Qed.
+Theorem C10_oracle_implies_seq : forall c, ok_C10 c = true -> ok_C10_seq c = true.
+Proof. exact ok_C10_implies_seq. Qed.
